@@ -25,7 +25,8 @@ class World(BaseWorld):
     def gen(self, seed, tier):
         st = Streams(seed)
         rc, ro = st.get('config'), st.get('ops')
-        spec = sysgen.gen_spec(rc, need_hard=self.need_hard, small=(rc.random() < 0.3))
+        rank4 = rc.random() < 0.04
+        spec = sysgen.gen_spec(rc, rank=4 if rank4 else None, need_hard=self.need_hard, small=(rank4 or rc.random() < 0.3))
         n_unknowns = spec['domain']['length'] * len(spec['types']) ** 2
         plan = simroot.gen_plan(st.get('solver'))
         ops = []
@@ -89,6 +90,8 @@ class World(BaseWorld):
                 ctx.probe('dk_constructed')
             if spec['domain'].get('history'):
                 ctx.probe('domain_resized_in_place')
+            if isinstance(spec['domain']['value'], int):
+                ctx.probe('integer_grid')
             if len({(p['closure']['cls'], p['closure']['hc']) for p in spec['pairs'].values()}) > 1:
                 ctx.probe('mixed_closures')
             if n > 1 and any((spec.get('bulk') or {}).values()):
@@ -289,7 +292,7 @@ class World(BaseWorld):
     def expected_probes(self, tier):
         return ['last_eval_differs_from_root', 'success_with_large_residual', 'rank3', 'rank2', 'rank1', 'mixed_closures', 'nonpow2_length',
                 'dk_constructed', 'converged', 'guess_previous_solution', 'regrid_same_length', 'bulk_assignment', 'potential_own_sigma', 'edit_same_system_diameter', 'edit_same_system_density',
-                'edit_same_system_kT', 'domain_resized_in_place', 'same_object_solved_again', 'converged_krylov', 'converged_hybr', 'converged_lm',
+                'edit_same_system_kT', 'domain_resized_in_place', 'same_object_solved_again', 'rank4', 'integer_grid', 'converged_krylov', 'converged_hybr', 'converged_lm',
                 'converged_anderson', 'converged_broyden1', 'converged_df-sane']
 
     def rule(self):
